@@ -73,10 +73,16 @@ EvStep ==
         [] Ev.ev = "Crash" -> Advance            \* an escaping exception is C04's subject, not judged here
         [] OTHER -> Reject("UnknownEvent", 0)
 
-\* the parser gave no tree at all: it must have said why
+\* the parser gave no tree at all.  C02: "code the grammar cannot match is kept inside unparsable nodes and
+\* reported as PRS errors; it is never discarded" — a parse that returns nothing has discarded everything.  The
+\* one exemption is an exceeded, configured parse limit (max_parse_depth / max_parse_nodes), which the
+\* properties themselves describe as a PRS violation without a tree (C04).
 NoTree ==
    /\ tid <= Len(Traces) /\ pc < Len(T.events) /\ Ev.ev = "Parse" /\ ~Ev.tree
-   /\ IF Mode = "C02" /\ Ev.nprs = 0 THEN Reject("NoTreeWithoutPRS", 0) ELSE Advance
+   /\ IF Mode # "C02" THEN Advance
+      ELSE IF Ev.nprs = 0 THEN Reject("NoTreeWithoutPRS", 0)
+      ELSE IF \E q \in 1..Len(Ev.prs_kinds) : Ev.prs_kinds[q] = "limit" THEN Advance
+      ELSE Reject("TreeKeepsUnmatchedCode", 0)
 
 \* C02: lock-step walk
 Walk02 ==
